@@ -127,7 +127,7 @@ func newRuleFlagSet() *ruleFlagSet {
 	rule.flagSet.Var((*valueFilterList)(&rule.Filters), "F", "filter")
 	rule.flagSet.Var(&rule.Syscalls, "S", "syscall name, number, or 'all'")
 	rule.flagSet.Var(&rule.Permissions, "p", "access type - r=read, w=write, x=execute, a=attribute change")
-	rule.flagSet.StringVar(&rule.Path, "w", "", "path to watch, no wildcards")
+	rule.flagSet.Var(&pathFlag{path: &rule.Path}, "w", "path to watch, no wildcards")
 	rule.flagSet.Var(&rule.Key, "k", "key")
 
 	return rule
@@ -316,6 +316,9 @@ type addFlag struct {
 }
 
 func (f *addFlag) Set(value string) error {
+	if *f != (addFlag{}) {
+		return errors.New("flag can only be specified once")
+	}
 	parts := strings.Split(value, ",")
 	if len(parts) > 2 {
 		return fmt.Errorf("expected a list type and action but got '%v'", value)
@@ -343,6 +346,30 @@ func (f *addFlag) Set(value string) error {
 
 func (f *addFlag) String() string {
 	return fmt.Sprintf("%v,%v", f.List, f.Action)
+}
+
+// --- pathFlag ---
+
+// pathFlag is a flag type for the watched path. It can be specified only once.
+type pathFlag struct {
+	path *string
+	set  bool
+}
+
+func (f *pathFlag) Set(value string) error {
+	if f.set {
+		return errors.New("flag can only be specified once")
+	}
+	f.set = true
+	*f.path = value
+	return nil
+}
+
+func (f *pathFlag) String() string {
+	if f.path == nil {
+		return ""
+	}
+	return *f.path
 }
 
 // --- fileAccessTypeFlags ---
